@@ -238,12 +238,20 @@ RT_CONFIGS_QUICK = [
                                '--pika:ini=pika.stacks.huge_size=0x100000', '--pika:ini=pika.stacks.use_guard_pages=1'], 'guard': True,
      'sizes': [0x8000, 0x8000, 0x40000, 0x100000]},
 ]
+# thread_queue_mc / queue_holder_thread (shared-priority scheduler): its own copy of creation and recycling.  No schedule hints
+# are used by the harness (out-of-range hints crash this scheduler: C10), all tasks go through hint mode `none`.
+RT_CONFIG_MC = {'name': 'shared', 'opts': ['--pika:ini=pika.stacks.use_guard_pages=1', '--pika:threads=4', '--pika:scheduler=shared-priority'],
+                'guard': True, 'mc': True}
+RT_CONFIGS_QUICK.append(RT_CONFIG_MC)
 RT_CONFIGS_THOROUGH = RT_CONFIGS_QUICK + [
     {'name': 'local', 'opts': ['--pika:ini=pika.stacks.use_guard_pages=1', '--pika:threads=4', '--pika:scheduler=local'], 'guard': True},
     {'name': 'static-priority', 'opts': ['--pika:ini=pika.stacks.use_guard_pages=1', '--pika:threads=4', '--pika:scheduler=static-priority'], 'guard': True},
     {'name': 'abp', 'opts': ['--pika:ini=pika.stacks.use_guard_pages=1', '--pika:threads=4', '--pika:scheduler=abp-priority-fifo'], 'guard': True},
     {'name': 'lifo', 'opts': ['--pika:ini=pika.stacks.use_guard_pages=1', '--pika:threads=4', '--pika:scheduler=local-priority-lifo'], 'guard': True},
-    {'name': 'shared', 'opts': ['--pika:ini=pika.stacks.use_guard_pages=1', '--pika:threads=4', '--pika:scheduler=shared-priority'], 'guard': True},
+    {'name': 'shared-sizes', 'opts': ['--pika:threads=3', '--pika:scheduler=shared-priority', '--pika:ini=pika.stacks.small_size=0x8000',
+                                      '--pika:ini=pika.stacks.medium_size=0x8000', '--pika:ini=pika.stacks.large_size=0x40000',
+                                      '--pika:ini=pika.stacks.huge_size=0x100000', '--pika:ini=pika.stacks.use_guard_pages=1'], 'guard': True,
+     'sizes': [0x8000, 0x8000, 0x40000, 0x100000], 'mc': True},
     {'name': 'static2', 'opts': ['--pika:threads=2', '--pika:scheduler=static'], 'guard': False,
      'extra': ['--pika:ini=pika.stacks.use_guard_pages=0']},
     {'name': 'eight', 'opts': ['--pika:ini=pika.stacks.use_guard_pages=1', '--pika:threads=8'], 'guard': True},
@@ -364,6 +372,11 @@ def run_rt(ctx, r, drv, h, seed, waves, per, cfg, budget):
                 model_in.append('IN RB %s' % key)
                 impl_out.append('OUT RB %s start_intr_req=%s start_intr_enabled=%s start_data=%s exit_cb_accepted=%s'
                                 % (key, f['start_intr_req'], f['start_intr_enabled'], f['start_data'], f['exit_cb_accepted']))
+            # the heap model of the queue implementation in use: an object is only reused by classes sharing its heap
+            model_in.append('IN HP %s %s %x %x %x %x %s %s' % (key, 'mc' if cfg.get('mc') else 'q', sz[0], sz[1], sz[2], sz[3], prev['cls'], f['cls']))
+            impl_out.append('OUT HP %s reuse=1 size=%s' % (key, f['stack_size']))
+            if prev['cls'] != f['cls']:
+                r.count('RT:recycled_by_other_class')
             if prev['stack_size'] != f['stack_size']:
                 r.hits.append(Hit('monitor', 'C12:rt:recycled_other_size',
                                   'thread object %s had a stack of %s and is reused with %s' % (t, prev['stack_size'], f['stack_size']),
@@ -382,6 +395,7 @@ def run_rt(ctx, r, drv, h, seed, waves, per, cfg, budget):
         r.hits.append(Hit('corr', 'C12:rt:correspondence', 'runtime and model differ (%s): impl [%s] model [%s]' % (k, a, b),
                           dict(args, impl=a, model=b)))
     r.count('RT:recycled', recycled)
+    r.count('RT:recycled:config=%s' % cfg['name'], recycled)
     r.count('RT:recycled_after_dirty', after_dirty)
     r.count('RT:migrated', migrated)
     if rts:
@@ -396,13 +410,19 @@ INH_CONFIGS_QUICK = [
                                    '--pika:ini=pika.stacks.huge_size=0x100000', '--pika:ini=pika.stacks.use_guard_pages=1'],
      'sizes': [0x8000, 0x10000, 0x40000, 0x100000]},
 ]
+INH_CONFIG_MC = {'name': 'inh-shared', 'opts': ['--pika:threads=4', '--pika:scheduler=shared-priority', '--pika:ini=pika.stacks.use_guard_pages=1'],
+                 'sizes': DEFAULT_SIZES, 'mc': True}
+INH_CONFIGS_QUICK.append(INH_CONFIG_MC)
 INH_CONFIGS_THOROUGH = INH_CONFIGS_QUICK + [
     {'name': 'inh-noguard', 'opts': ['--pika:threads=4', '--pika:ini=pika.stacks.use_guard_pages=0'], 'sizes': DEFAULT_SIZES},
     {'name': 'inh-static-priority', 'opts': ['--pika:threads=4', '--pika:scheduler=static-priority', '--pika:ini=pika.stacks.use_guard_pages=1'], 'sizes': DEFAULT_SIZES},
     {'name': 'inh-local', 'opts': ['--pika:threads=2', '--pika:scheduler=local', '--pika:ini=pika.stacks.use_guard_pages=1'], 'sizes': DEFAULT_SIZES},
     {'name': 'inh-abp', 'opts': ['--pika:threads=4', '--pika:scheduler=abp-priority-fifo', '--pika:ini=pika.stacks.use_guard_pages=1'], 'sizes': DEFAULT_SIZES},
     {'name': 'inh-lifo', 'opts': ['--pika:threads=1', '--pika:scheduler=local-priority-lifo', '--pika:ini=pika.stacks.use_guard_pages=1'], 'sizes': DEFAULT_SIZES},
-    {'name': 'inh-shared', 'opts': ['--pika:threads=4', '--pika:scheduler=shared-priority', '--pika:ini=pika.stacks.use_guard_pages=1'], 'sizes': DEFAULT_SIZES},
+    {'name': 'inh-shared-sizes', 'opts': ['--pika:threads=3', '--pika:scheduler=shared-priority', '--pika:ini=pika.stacks.small_size=0x8000',
+                                          '--pika:ini=pika.stacks.medium_size=0x10000', '--pika:ini=pika.stacks.large_size=0x40000',
+                                          '--pika:ini=pika.stacks.huge_size=0x100000', '--pika:ini=pika.stacks.use_guard_pages=1'],
+     'sizes': [0x8000, 0x10000, 0x40000, 0x100000], 'mc': True},
 ]
 CLSN = ['small', 'medium', 'large', 'huge']
 
@@ -475,7 +495,7 @@ def run_inherit(ctx, r, drv, h, seed, reps, cfg, budget):
                                   '(config %s): %s' % (cfg['name'], x[:300]), dict(args, observed=x)))
         # model: created_class / created_enum (creator context = a task of the parent's class, or none; staged descriptions are
         # converted by a worker outside any task)
-        model_in.append('IN CUR %s %s %s - c' % (key, 'R' if f['run_now'] == '1' else 'S', str(pc) if pc >= 0 else '-'))
+        model_in.append('IN %s %s %s %s - c' % ('CURMC' if cfg.get('mc') else 'CUR', key, 'R' if f['run_now'] == '1' else 'S', str(pc) if pc >= 0 else '-'))
         impl_out.append('OUT CUR %s size=%x enum=%s' % (key, int(f['stack_size'], 16), f['cls_enum'] if f['cls_enum'] != '6' else 'current'))
     if model_in:
         rc2, mout = sh([drv], input='\n'.join(model_in) + '\n', timeout=600)
